@@ -329,6 +329,7 @@ func TestC13(t *testing.T) {
 	}
 	e.Stats["extra"].(map[string]any)["sa_roundtrips_that_renamed_something"] = saTouched
 	e.Sample([]string{"bimap a:b,c:b", "tr a:b,b:c a", "dir 1 local-ns:remote-ns,l2:r2 remote-ns req"})
+	vtC13(e, g) // value-level correspondence (valtree_test.go): ops `valns` / `valsa`
 }
 
 // ---- C14 (engine "namemap" + "translate" path ops) --------------------------------------------
@@ -509,6 +510,7 @@ func TestC14(t *testing.T) {
 		}
 	}
 	e.Sample([]string{"keys CustomKeywordField:Keyword01,x:y CustomKeywordField,Other"})
+	vtC14(e, g) // value-level correspondence (valtree_test.go): ops `valsa`
 }
 
 func renamed(in, out []string, mp [][2]string) bool {
